@@ -37,6 +37,7 @@ type World struct {
 	FnByKey  map[string]*ssa.Function
 	ContractFiles []string
 	GlobalInit func(e *Exec, st *State, g *ssa.Global) (Val, bool)
+	ifaceConv  map[string]map[string]bool
 }
 
 // Load loads packages (patterns relative to repo) with the verif tag and builds SSA.
@@ -101,6 +102,9 @@ func Load(repo string, patterns []string) (*World, error) {
 			continue
 		}
 		if _, ok := w.FnByKey[k]; !ok {
+			if w.bindIfaceContract(ct) {
+				continue
+			}
 			errs = append(errs, fmt.Sprintf("contract for unknown function %s", k))
 		}
 	}
@@ -527,4 +531,116 @@ func tokenizeSexp(s string) []string {
 	}
 	flush()
 	return toks
+}
+
+// bindIfaceContract recognises `contract (Iface).Method` and collects the implementing methods of the module.
+func (w *World) bindIfaceContract(ct *Contract) bool {
+	name := strings.TrimSpace(ct.Func)
+	if !strings.HasPrefix(name, "(") || strings.HasPrefix(name, "(*") {
+		return false
+	}
+	i := strings.Index(name, ").")
+	if i < 0 {
+		return false
+	}
+	tname, mname := name[1:i], name[i+2:]
+	var it *types.Interface
+	var named types.Type
+	for _, p := range w.Prog.AllPackages() {
+		if p.Pkg.Path() != ct.PkgPath {
+			continue
+		}
+		if o, ok := p.Pkg.Scope().Lookup(tname).(*types.TypeName); ok {
+			if x, ok := o.Type().Underlying().(*types.Interface); ok {
+				it, named = x, o.Type()
+			}
+		}
+	}
+	if it == nil {
+		return false
+	}
+	found := false
+	for k := 0; k < it.NumMethods(); k++ {
+		if it.Method(k).Name() == mname {
+			found = true
+		}
+	}
+	if !found {
+		return false
+	}
+	_ = named
+	ct.Iface = true
+	var impls []string
+	for _, p := range w.Prog.AllPackages() {
+		if !strings.HasPrefix(p.Pkg.Path(), modulePath) {
+			continue
+		}
+		sc := p.Pkg.Scope()
+		for _, n := range sc.Names() {
+			tn, ok := sc.Lookup(n).(*types.TypeName)
+			if !ok || tn.IsAlias() {
+				continue
+			}
+			if _, isI := tn.Type().Underlying().(*types.Interface); isI {
+				continue
+			}
+			for _, t := range []types.Type{tn.Type(), types.NewPointer(tn.Type())} {
+				if !types.Implements(t, it) {
+					continue
+				}
+				// structural typing makes many unrelated types "implement" small interfaces: count only types
+				// that the program actually converts to this interface
+				if !w.convertedTo(t, named) {
+					continue
+				}
+				sel := w.Prog.MethodSets.MethodSet(t).Lookup(p.Pkg, mname)
+				if sel == nil {
+					continue
+				}
+				fn := w.Prog.MethodValue(sel)
+				if fn == nil || fn.Synthetic != "" || fn.Blocks == nil {
+					continue // promoted through embedding: the embedded type's own method is checked
+				}
+				impls = append(impls, fn.String())
+				w.FnByKey[fn.String()] = fn
+				break
+			}
+		}
+	}
+	sort.Strings(impls)
+	ct.Impls = impls
+	return true
+}
+
+// ifaceContract finds the contract of an interface method.
+func (w *World) ifaceContract(t types.Type, method string) *Contract {
+	nt, ok := t.(*types.Named)
+	if !ok || nt.Obj().Pkg() == nil {
+		return nil
+	}
+	return w.Contracts["("+nt.Obj().Pkg().Path()+"."+nt.Obj().Name()+")."+method]
+}
+
+// convertedTo: does some MakeInterface instruction of the module convert a value of type t to interface type it?
+func (w *World) convertedTo(t types.Type, it types.Type) bool {
+	if w.ifaceConv == nil {
+		w.ifaceConv = map[string]map[string]bool{}
+		for fn := range ssautil.AllFunctions(w.Prog) {
+			if fn.Blocks == nil || !strings.HasPrefix(pkgPathOf(fn), modulePath) {
+				continue
+			}
+			for _, b := range fn.Blocks {
+				for _, in := range b.Instrs {
+					if mi, ok := in.(*ssa.MakeInterface); ok {
+						k := mi.Type().String()
+						if w.ifaceConv[k] == nil {
+							w.ifaceConv[k] = map[string]bool{}
+						}
+						w.ifaceConv[k][mi.X.Type().String()] = true
+					}
+				}
+			}
+		}
+	}
+	return w.ifaceConv[it.String()][t.String()]
 }
